@@ -6,6 +6,8 @@ CHECKS = {
  "C01": ("exploration", "5.C01", "refinement of single-client command histories against an executable reference model, inside the deterministic whole-server simulation (virtual clock, scheduled sweeper thread, segmented transport)",
          "Seeded search over histories of string/key-space commands; every reply and, after every command, the complete stored dataset is compared with a Redis reference model evaluated at the exact virtual execution time. Exploration is the right level: the quantifier is over unbounded histories and argument values, which can only be sampled."),
 }
+CHECKS["C02"] = ("exploration", "5.C02", "refinement against a reference model with the virtual clock placed at chosen offsets around each deadline and the expiry sweeper thread scheduled by the simulator (eager / starved / parked between its collect and delete phases)",
+  "Seeded search over TTL histories on all value types; the simulator owns the monotonic clock (exact deadline-d / deadline / deadline+d positions down to 1 ns) and decides when and how far the real sweeper thread runs, including holding it in the window between its scan and its deletions while client commands change the collected keys. Replies and the stored dataset incl. stored deadlines are compared with the model after every step. Exploration: schedules and histories are sampled, not enumerated.")
 NOT_APPLICABLE = []
 def main():
     checks = []
